@@ -10,6 +10,7 @@ mod runner;
 mod scripts;
 mod steps;
 mod trace;
+mod twins;
 mod vtime;
 mod world;
 
